@@ -199,7 +199,7 @@ def check(ctx):
         ctx.ob("FILL", r, norm(geo[0]), geo[0], ok, "every feature's geometry object is kept unchanged (null included)" if ok else
                "geometries are filtered or transformed while reading", clause="the geometry objects unchanged in a geometry column")
     sd = [c for f, c in calls_in(r) if isinstance(c.func, ast.Attribute) and c.func.attr == "setdefault"]
-    ok = bool(sd) and any(_inside(r, c, floops[0]) if floops else False for c in sd)
+    ok = bool(sd) and any(_inside(r, c, fl) for c in sd for fl in floops)
     ctx.ob("FILL", r, "data.setdefault(key, []) for every key of every feature", sd[0] if sd else r.node, ok,
            "columns are the union of property keys over all features" if ok else
            "property columns are not collected from every feature (e.g. only from the first)",
